@@ -64,6 +64,116 @@ impl RopeX {
             RopeX::Tiled(u, c) => format!("(x {} {c})", u.render()),
         }
     }
+    /// flat content (small ropes only)
+    fn content(&self) -> Vec<u8> {
+        match self {
+            RopeX::Owned(b) => b.clone(),
+            RopeX::Zeroed(n) => vec![0u8; *n],
+            RopeX::Slice(p, o, l) => p.content()[*o..*o + *l].to_vec(),
+            RopeX::Concat(a, b) => {
+                let mut v = a.content();
+                v.extend(b.content());
+                v
+            }
+            RopeX::Tiled(u, c) => {
+                let unit = u.content();
+                let mut v = vec![];
+                for _ in 0..*c {
+                    v.extend_from_slice(&unit);
+                }
+                v
+            }
+        }
+    }
+    /// structural boundaries of the rope in content coordinates: leaf ends, concat seams, tile
+    /// boundaries (first, second and last tile), slice ends
+    fn bounds(&self, base: usize, out: &mut Vec<usize>) {
+        match self {
+            RopeX::Owned(_) | RopeX::Zeroed(_) => {
+                out.push(base);
+                out.push(base + self.len());
+            }
+            RopeX::Concat(a, b) => {
+                a.bounds(base, out);
+                b.bounds(base + a.len(), out);
+            }
+            RopeX::Tiled(u, c) => {
+                let ul = u.len();
+                let mut ks = vec![0usize, 1, c.saturating_sub(1)];
+                ks.dedup();
+                for k in ks {
+                    if k < *c {
+                        u.bounds(base + k * ul, out);
+                    }
+                }
+                out.push(base + ul * *c);
+            }
+            RopeX::Slice(p, off, l) => {
+                let mut pb = vec![];
+                p.bounds(0, &mut pb);
+                for x in pb {
+                    if x >= *off && x <= *off + *l {
+                        out.push(base + (x - *off));
+                    }
+                }
+                out.push(base);
+                out.push(base + *l);
+            }
+        }
+    }
+    /// bytes that are special for the structure: first/last byte of tiled units, bytes at concat
+    /// seams, parent bytes just outside a slice window
+    fn special_bytes(&self, out: &mut Vec<u8>) {
+        match self {
+            RopeX::Owned(_) | RopeX::Zeroed(_) => {}
+            RopeX::Concat(a, b) => {
+                if let Some(x) = a.content().last() {
+                    out.push(*x);
+                }
+                if let Some(x) = b.content().first() {
+                    out.push(*x);
+                }
+                a.special_bytes(out);
+                b.special_bytes(out);
+            }
+            RopeX::Tiled(u, _) => {
+                let c = u.content();
+                if let (Some(f), Some(l)) = (c.first(), c.last()) {
+                    out.push(*f);
+                    out.push(*l);
+                }
+                u.special_bytes(out);
+            }
+            RopeX::Slice(p, off, l) => {
+                let c = p.content();
+                if *off > 0 {
+                    out.push(c[*off - 1]);
+                }
+                if *off + *l < c.len() {
+                    out.push(c[*off + *l]);
+                }
+                p.special_bytes(out);
+            }
+        }
+    }
+    /// bytes of the small owned leaves (cheap also on maximal ropes)
+    fn leaf_bytes(&self, out: &mut Vec<u8>) {
+        match self {
+            RopeX::Owned(b) if b.len() <= 64 => {
+                if let (Some(f), Some(l)) = (b.first(), b.last()) {
+                    out.push(*f);
+                    out.push(*l);
+                }
+                out.extend_from_slice(b);
+            }
+            RopeX::Owned(_) | RopeX::Zeroed(_) => {}
+            RopeX::Slice(p, _, _) | RopeX::Tiled(p, _) => p.leaf_bytes(out),
+            RopeX::Concat(a, b) => {
+                a.leaf_bytes(out);
+                b.leaf_bytes(out);
+            }
+        }
+    }
     fn nodes(&self) -> usize {
         match self {
             RopeX::Owned(_) | RopeX::Zeroed(_) => 1,
@@ -827,6 +937,150 @@ impl Gen {
         }
     }
 
+    /// A structured rope built bottom-up (the shape comes first, the content follows from it).
+    fn gen_rope(&self, r: &mut Rng, depth: u32) -> RopeX {
+        let alphabet = [0x0au8, 0x61, 0x62, 0x00, 0xff, 0x0a];
+        let leaf = |r: &mut Rng| -> RopeX {
+            match r.below(6) {
+                0 => RopeX::Zeroed(r.usize(5)),
+                1 => {
+                    // a unit whose first byte does not recur (search hits only at tile starts)
+                    let n = 2 + r.usize(3);
+                    let mut v = vec![*r.pick(&[0x0au8, 0x00, 0xff])];
+                    for _ in 1..n {
+                        v.push(*r.pick(&[0x61u8, 0x62, 0x63]));
+                    }
+                    RopeX::Owned(v)
+                }
+                2 => {
+                    let n = 1 + r.usize(8);
+                    RopeX::Owned(r.bytes(n))
+                }
+                _ => {
+                    let n = r.usize(7);
+                    RopeX::Owned((0..n).map(|_| *r.pick(&alphabet)).collect())
+                }
+            }
+        };
+        if depth == 0 {
+            return leaf(r);
+        }
+        match r.below(8) {
+            0 => leaf(r),
+            1 | 2 | 3 => {
+                let u = self.gen_rope(r, depth - 1);
+                RopeX::Tiled(Box::new(u), 2 + r.usize(3))
+            }
+            4 | 5 => RopeX::Concat(Box::new(self.gen_rope(r, depth - 1)), Box::new(self.gen_rope(r, depth - 1))),
+            _ => {
+                let p = self.gen_rope(r, depth - 1);
+                let n = p.len();
+                let off = r.usize(n + 1);
+                let l = r.usize(n - off + 1);
+                RopeX::Slice(Box::new(p), off, l)
+            }
+        }
+    }
+
+    /// an offset drawn relative to the structure of `rope`: a boundary, or one off it, or past the end
+    fn offset_near(&self, rope: &RopeX, r: &mut Rng) -> i64 {
+        let mut b = vec![];
+        rope.bounds(0, &mut b);
+        let n = rope.len() as i64;
+        match r.below(12) {
+            0 => n + r.range(0, 2),
+            1 => r.range(0, n.max(1)),
+            _ => (*r.pick(&b) as i64 + r.range(-1, 1)).max(0),
+        }
+    }
+
+    fn byte_near(&self, rope: &RopeX, content: &[u8], r: &mut Rng) -> i64 {
+        let mut sp = vec![];
+        rope.special_bytes(&mut sp);
+        match r.below(10) {
+            0 => (0..=255u8).find(|x| !content.contains(x)).unwrap_or(7) as i64, // absent byte
+            1 if !content.is_empty() => content[0] as i64,
+            2 if !content.is_empty() => content[content.len() - 1] as i64,
+            3 if !content.is_empty() => content[r.usize(content.len())] as i64,
+            _ if !sp.is_empty() => *r.pick(&sp) as i64,
+            _ => r.below(256) as i64,
+        }
+    }
+
+    /// Shape-first case for the builtins whose integer arguments address positions inside the
+    /// binary: the rope is generated first and offsets / bytes are drawn relative to its
+    /// structure (tile boundaries, last tile, concat seams ±1, slice ends, just past the end).
+    /// Returns (flat twin, rope-shaped call).
+    fn shape_first(&self, name: &str, r: &mut Rng) -> Option<(Arg, Arg)> {
+        use Arg::*;
+        let bi = |v: i64| Int(BigInt::from(v));
+        let depth = 1 + r.below(3) as u32;
+        let rope = self.gen_rope(r, depth);
+        let c = rope.content();
+        let n = c.len() as i64;
+        let rest: Vec<Arg> = match name {
+            "binary_index" => vec![bi(self.byte_near(&rope, &c, r)), bi(self.offset_near(&rope, r))],
+            "binary_slice" => {
+                let a = self.offset_near(&rope, r);
+                let b = self.offset_near(&rope, r);
+                let (a, b) = if r.chance(5, 6) { (a.min(b), a.max(b)) } else { (a, b) };
+                vec![bi(a), bi(b)]
+            }
+            "binary_get" | "binary_set" => {
+                let nb = match r.below(5) {
+                    0 => 64,
+                    1 => 8,
+                    2 => *r.pick(&[1i64, 7, 9, 16, 33, 63]),
+                    _ => r.range(1, 64),
+                };
+                let bit = r.range(0, 7);
+                let need = (bit + nb + 7) / 8;
+                // windows that start before a boundary and straddle it
+                let bo = (self.offset_near(&rope, r) - r.range(0, need)).max(0);
+                let bo = if r.chance(1, 8) { (n - need).max(0) + r.range(0, 1) } else { bo };
+                if name == "binary_get" {
+                    vec![bi(bo), bi(bit), bi(nb)]
+                } else {
+                    let v = BigInt::from(r.next()) % BigInt::from(2).pow(nb as u32);
+                    vec![bi(bo), bi(bit), Int(v), bi(nb)]
+                }
+            }
+            "binary_shift" => {
+                let k = 8 * self.offset_near(&rope, r) + r.range(-1, 1) * r.range(0, 7);
+                vec![bi(if r.chance(1, 2) { k } else { -k })]
+            }
+            "binary_repeat" => vec![bi(r.range(0, 4))],
+            "binary_append" => {
+                let nb = r.range(1, 8);
+                vec![Int(BigInt::from(r.next()) % BigInt::from(2).pow(8 * nb as u32)), bi(nb)]
+            }
+            "vector_get" => {
+                let w = *r.pick(&[4i64, 8]);
+                vec![bi(w), bi(self.offset_near(&rope, r) / w + r.range(-1, 1))]
+            }
+            "vector_push" => vec![bi(*r.pick(&[4i64, 8])), bi(r.range(-3, 3))],
+            "vector_sum" => vec![bi(*r.pick(&[4i64, 8]))],
+            "binary_length" | "binary_not" | "binary_popcount" | "binary_hash32" | "binary_hash64" => {
+                return Some((Bin(c), Rope(rope)));
+            }
+            "binary_concat" | "binary_and" | "binary_or" | "binary_xor" => {
+                let other = self.gen_rope(r, depth);
+                let oc = other.content();
+                return Some(if r.chance(1, 2) {
+                    (Tup(vec![Bin(c), Bin(oc)]), Tup(vec![Rope(rope), Rope(other)]))
+                } else {
+                    (Tup(vec![Bin(oc), Bin(c)]), Tup(vec![Rope(other), Rope(rope)]))
+                });
+            }
+            _ => return None,
+        };
+        let mut flat = vec![Bin(c)];
+        flat.extend(rest.iter().cloned());
+        let mut shaped = vec![Rope(rope)];
+        shaped.extend(rest);
+        Some((Tup(flat), Tup(shaped)))
+    }
+
     /// Lazy ropes of (near-)maximal size; never flattened on either side.
     fn big_rope(&self, r: &mut Rng) -> RopeX {
         let n = MAX - r.usize(3);
@@ -872,8 +1126,17 @@ impl Gen {
                 ("binary_slice".into(), Tup(vec![Rope(big), bi(s), bi(e)]))
             }
             4 => {
-                let byte = *r.pick(&[0i64, 0xab, 0xcd, 1, 0xff]);
-                let off = *r.pick(&[0i64, 1, n / 2, n - 9, n - 2, n - 1, n]);
+                // byte from the leaves (first / last byte of a tiled unit …), offset relative to
+                // the structure (last tile, seam, end)
+                let mut lb = vec![0u8, 1, 0xff];
+                big.leaf_bytes(&mut lb);
+                let byte = *r.pick(&lb) as i64;
+                let mut b = vec![];
+                big.bounds(0, &mut b);
+                let off = match r.below(4) {
+                    0 => *r.pick(&[0i64, 1, n / 2, n - 9, n - 2, n - 1, n]),
+                    _ => (*r.pick(&b) as i64 + r.range(-2, 2)).max(0),
+                };
                 ("binary_index".into(), Tup(vec![Rope(big), bi(byte), bi(off)]))
             }
             5 => {
@@ -967,11 +1230,17 @@ impl Ctx<'_> {
         self.ev.violation(&sig, &what, replay, true);
     }
 
-    /// Run one call on the implementation and the model; returns the implementation outcome.
-    fn check(&mut self, name: &str, a: &Arg, how: Build, expected: Option<&str>) -> String {
+    /// Run one call on the implementation (the model is asked separately, possibly in a batch).
+    fn run_impl(&mut self, name: &str, a: &Arg, how: Build, expected: Option<&str>) -> Pending {
         let req = format!("call {name} {}", render(a));
         let io = call_impl(self.b, name, a, how);
-        let model_out = self.model.ask(&req);
+        Pending { name: name.to_string(), arg: a.clone(), how, req, io, expected: expected.map(|s| s.to_string()) }
+    }
+
+    /// Compare the implementation outcome with the model's answer; returns the implementation outcome.
+    fn judge(&mut self, p: Pending, model_out: String) -> String {
+        let Pending { name, arg: a, how, req, io, expected } = p;
+        let (name, a) = (name.as_str(), &a);
         let kind = outcome_kind(&io.out).to_string();
         self.ev.hit(&format!("outcome:{kind}"));
         if kind == "err" {
@@ -1003,13 +1272,13 @@ impl Ctx<'_> {
                 format!("{name} on {} returns `{}` but the reference model gives `{model_out}`", render(a), clip(&io.out)),
                 json!({"request": req, "impl": io.out, "model": model_out, "build": format!("{how:?}")}));
         }
-        if let Some(e) = expected {
-            if io.out != e {
+        if let Some(e) = &expected {
+            if &io.out != e {
                 self.report(name, a, if kind == "panic" { "panic" } else { "wrong-value" },
                     format!("{name} on {} returns `{}`; the recorded correct answer is `{e}`", render(a), clip(&io.out)),
                     json!({"request": req, "impl": io.out, "expected": e}));
             }
-            if has_model && model_out != e {
+            if has_model && &model_out != e {
                 self.ev.violation(&format!("builtin={name} kind=model-vs-corpus"),
                     &format!("model answers `{model_out}` for corpus case `{req}` whose recorded answer is `{e}`"),
                     json!({"request": req, "model": model_out, "expected": e, "broken": format!("correspondence model<->corpus on {name}")}), false);
@@ -1018,31 +1287,68 @@ impl Ctx<'_> {
         io.out
     }
 
-    /// flat call + the same call with every binary reshaped (both ways of building the rope)
-    fn check_with_shapes(&mut self, g: &Gen, name: &str, a: &Arg, r: &mut Rng) {
-        count_arg(self.ev, a);
-        let flat = self.check(name, a, Build::Direct, None);
-        if outcome_kind(&flat) == "setup-failed" {
-            return;
+    /// Run one call on the implementation and the model; returns the implementation outcome.
+    fn check(&mut self, name: &str, a: &Arg, how: Build, expected: Option<&str>) -> String {
+        let p = self.run_impl(name, a, how, expected);
+        let model_out = self.model.ask(&p.req);
+        self.judge(p, model_out)
+    }
+
+    /// A batch of generated cases: each flat call plus the same call with every binary reshaped
+    /// (both ways of building the rope). The model answers the whole batch in one pipelined pass.
+    fn check_batch_with_shapes(&mut self, g: &Gen, name: &str, cases: Vec<(Arg, Option<Arg>, Rng)>) {
+        // (flat pending, optional (shaped arg, shaped pending, how))
+        let mut items: Vec<(Arg, Pending, Option<(Arg, Pending, Build)>)> = vec![];
+        for (a, twin, mut r) in cases {
+            count_arg(self.ev, &a);
+            let flat = self.run_impl(name, &a, Build::Direct, None);
+            let shaped = match twin {
+                Some(t) => t,
+                None => g.reshape(&a, &mut r),
+            };
+            let second = if shaped == a || outcome_kind(&flat.io.out) == "setup-failed" {
+                None
+            } else {
+                count_arg(self.ev, &shaped);
+                let how = if r.chance(1, 2) { Build::Direct } else { Build::ViaBuiltins };
+                self.ev.hit(&format!("rope-build:{how:?}"));
+                let p2 = self.run_impl(name, &shaped, how, None);
+                Some((shaped, p2, how))
+            };
+            items.push((a, flat, second));
         }
-        let shaped = g.reshape(a, r);
-        if &shaped == a {
-            return;
+        let mut lines: Vec<String> = vec![];
+        for (_, f, s) in &items {
+            lines.push(f.req.clone());
+            if let Some((_, p2, _)) = s {
+                lines.push(p2.req.clone());
+            }
         }
-        count_arg(self.ev, &shaped);
-        let how = if r.chance(1, 2) { Build::Direct } else { Build::ViaBuiltins };
-        self.ev.hit(&format!("rope-build:{how:?}"));
-        let out2 = self.check(name, &shaped, how, None);
-        if outcome_kind(&out2) == "setup-failed" {
-            return;
-        }
-        if out2 != flat && outcome_kind(&out2) != "panic" && outcome_kind(&flat) != "panic" {
-            self.report(name, &shaped, "shape-dependent",
-                format!("{name} depends on how its argument was built: `{}` on {} but `{}` on {}", clip(&flat), render(a), clip(&out2), render(&shaped)),
-                json!({"request": format!("call {name} {}", render(&shaped)), "flat_request": format!("call {name} {}", render(a)),
-                       "impl_flat": flat, "impl_shaped": out2, "build": format!("{how:?}")}));
+        let mut answers = self.model.ask_all(&lines).into_iter();
+        for (a, f, s) in items {
+            let flat = self.judge(f, answers.next().unwrap());
+            let Some((shaped, p2, how)) = s else { continue };
+            let out2 = self.judge(p2, answers.next().unwrap());
+            if outcome_kind(&flat) == "setup-failed" || outcome_kind(&out2) == "setup-failed" {
+                continue;
+            }
+            if out2 != flat && outcome_kind(&out2) != "panic" && outcome_kind(&flat) != "panic" {
+                self.report(name, &shaped, "shape-dependent",
+                    format!("{name} depends on how its argument was built: `{}` on {} but `{}` on {}", clip(&flat), render(&a), clip(&out2), render(&shaped)),
+                    json!({"request": format!("call {name} {}", render(&shaped)), "flat_request": format!("call {name} {}", render(&a)),
+                           "impl_flat": flat, "impl_shaped": out2, "build": format!("{how:?}")}));
+            }
         }
     }
+}
+
+struct Pending {
+    name: String,
+    arg: Arg,
+    how: Build,
+    req: String,
+    io: ImplOut,
+    expected: Option<String>,
 }
 
 fn clip(s: &str) -> String {
@@ -1177,6 +1483,7 @@ fn main() {
             cx.ev.hit("float-builtin:totality-only");
             continue;
         }
+        let mut batch: Vec<(Arg, Option<Arg>, Rng)> = vec![];
         for i in 0..per_name {
             let mut r = Rng::for_case(opts.seed ^ ns, i);
             let pick = r.below(20);
@@ -1202,7 +1509,24 @@ fn main() {
                 cx.ev.hit("skipped:ungeneratable-param");
                 break;
             };
-            cx.check_with_shapes(&g, name, &a, &mut r);
+            batch.push((a, None, r));
+            if batch.len() >= 256 {
+                cx.check_batch_with_shapes(&g, name, std::mem::take(&mut batch));
+            }
+        }
+        // shape-first stream: the rope comes first, positions are drawn relative to its structure
+        let shape_first_cases = if boundary_only { 400u64 } else { opts.tier.pick(350u64, 12000u64) };
+        for i in 0..shape_first_cases {
+            let mut r = Rng::for_case(opts.seed ^ ns ^ 0x5AFE, i);
+            let Some((flat, shaped)) = g.shape_first(name, &mut r) else { break };
+            cx.ev.hit("gen:shape-first");
+            batch.push((flat, Some(shaped), r));
+            if batch.len() >= 256 {
+                cx.check_batch_with_shapes(&g, name, std::mem::take(&mut batch));
+            }
+        }
+        if !batch.is_empty() {
+            cx.check_batch_with_shapes(&g, name, batch);
         }
     }
 
